@@ -1,0 +1,79 @@
+//go:build verif
+
+// Contracts for the deductive verification in /verif (govc). Comment-only.
+// Thread-modular (rely/guarantee) reasoning: see /verif/DESIGN.md §2.5 and C08.
+
+package streams
+
+//@ func New
+//@   props C08
+//@   ensures result != nil && (result.NumStreams == 128 || result.NumStreams == 32768)
+//@   ensures (protocol > 2) == (result.NumStreams == 32768)
+//@   ensures result.numBuckets == uint32(result.NumStreams/64) && len(result.streams) == int(result.numBuckets)
+//@   ensures result.streams[0] == 1<<63 && result.offset < result.numBuckets && result.inuseStreams == 0
+//@   ensures forall(k, 1 <= k && k < len(result.streams), result.streams[k] == 0)
+
+//@ func streamFromBucket
+//@   props C08
+//@   requires 0 <= bucket && bucket < 512 && 0 <= streamInBucket && streamInBucket < 64
+//@   ensures result == bucket*64 + streamInBucket && result/64 == bucket && result%64 == streamInBucket
+
+//@ func bucketOffset
+//@   props C08
+//@   ensures result == i/64
+
+//@ func streamOffset
+//@   props C08
+//@   requires stream >= 0
+//@   ensures result == uint64(63 - stream%64) && result < 64
+
+//@ func (s *IDGenerator) GetStream
+//@   props C08
+//@   atomic
+//@   shared s.streams[*], s.offset, s.inuseStreams
+//@   requires (s.numBuckets == 2 || s.numBuckets == 512) && len(s.streams) == int(s.numBuckets) && s.NumStreams == int(s.numBuckets)*64
+//@   atomic_inv s.streams[0] & (1<<63) != 0
+//@   atomic_inv s.offset < s.numBuckets
+//@   guarantee offset: new_val == (old_val + 1) % s.numBuckets
+//@   guarantee streams: (new_val ^ old_val) != 0 && (new_val ^ old_val) & ((new_val ^ old_val) - 1) == 0 && old_val & (new_val ^ old_val) == 0
+//@   guarantee inuseStreams: new_val == old_val + 1
+//@   observe streams into seen
+//@   ensures[C08] result1 ==> 1 <= result0 && result0 < s.NumStreams
+//@   ensures[C08] result1 == streams_cas_done
+//@   ensures[C08] result1 ==> streams_cas_count == 1 && streams_cas_idx == result0/64 && streams_cas_old & (1 << uint(63 - result0%64)) == 0 && streams_cas_new == streams_cas_old | (1 << uint(63 - result0%64))
+//@   ensures[C08] result1 ==> inuseStreams_add_count == 1 && inuseStreams_add_sum == 1
+//@   ensures[C08] !result1 ==> inuseStreams_add_count == 0 && streams_cas_count == 0 && result0 == 0
+//@   ensures[C08] !result1 ==> forall(uint32(w), w < s.numBuckets, seen[int(w)] == ^uint64(0))
+//@   loop 0: invariant !streams_cas_done && streams_cas_count == 0 && inuseStreams_add_count == 0 && inuseStreams_add_sum == 0
+//@   loop 0: invariant forall(uint32(w), seen[int(w)] == 0)
+//@   loop 1: invariant !streams_cas_done && streams_cas_count == 0 && inuseStreams_add_count == 0 && inuseStreams_add_sum == 0
+//@   loop 1: invariant i <= s.numBuckets && offset < s.numBuckets
+//@   loop 1: invariant forall(uint32(w), w < s.numBuckets, ((w + s.numBuckets - offset) % s.numBuckets < i) ==> seen[int(w)] == ^uint64(0))
+//@   loop 2: invariant !streams_cas_done && streams_cas_count == 0 && inuseStreams_add_count == 0 && inuseStreams_add_sum == 0
+//@   loop 2: invariant 0 <= j && j <= 64 && bucket & ^seen[pos] == 0
+//@   loop 2: invariant seen[pos] & ^(^uint64(0) >> uint(j)) == ^(^uint64(0) >> uint(j))
+//@   loop 2: invariant forall(uint32(w), w < s.numBuckets, ((w + s.numBuckets - offset) % s.numBuckets < i) ==> seen[int(w)] == ^uint64(0))
+//@   loop 3: invariant !streams_cas_done && streams_cas_count == 0 && inuseStreams_add_count == 0 && inuseStreams_add_sum == 0
+//@   loop 3: invariant bucket & ^seen[pos] == 0
+//@   loop 3: invariant seen[pos] & ^(^uint64(0) >> uint(j)) == ^(^uint64(0) >> uint(j))
+//@   loop 3: invariant forall(uint32(w), w < s.numBuckets, ((w + s.numBuckets - offset) % s.numBuckets < i) ==> seen[int(w)] == ^uint64(0))
+
+//@ func (s *IDGenerator) Clear
+//@   props C08
+//@   atomic
+//@   shared s.streams[*], s.inuseStreams
+//@   requires (s.numBuckets == 2 || s.numBuckets == 512) && len(s.streams) == int(s.numBuckets) && s.NumStreams == int(s.numBuckets)*64
+//@   requires 1 <= stream && stream < s.NumStreams
+//@   atomic_inv s.streams[0] & (1<<63) != 0
+//@   atomic_inv inuseStreams_add_count == 0 ==> s.inuseStreams >= 1
+//@   guarantee streams: idx == stream/64 && old_val & (1 << uint(63 - stream%64)) != 0 && new_val == old_val & ^(1 << uint(63 - stream%64))
+//@   guarantee inuseStreams: new_val == old_val - 1
+//@   ensures[C08] inuse == streams_cas_done
+//@   ensures[C08] inuse ==> streams_cas_count == 1 && inuseStreams_add_count == 1 && inuseStreams_add_sum == -1
+//@   ensures[C08] !inuse ==> streams_cas_count == 0 && inuseStreams_add_count == 0
+//@   loop 0: invariant !streams_cas_done && streams_cas_count == 0 && inuseStreams_add_count == 0 && inuseStreams_add_sum == 0
+//@   loop 0: invariant bucket&mask == mask
+
+//@ func (s *IDGenerator) Available
+//@   props C08
+//@   ensures result == s.NumStreams - int(s.inuseStreams) - 1
